@@ -3,6 +3,12 @@
 //! std only (no serde), so it compiles inside every crate.
 #![allow(dead_code)]
 
+// the statime crates are `#![no_std]` + `extern crate std`: bring the std prelude and macros in explicitly
+#[allow(unused_imports)]
+use std::prelude::rust_2021::*;
+#[allow(unused_imports)]
+use std::{eprintln, format, println, vec};
+
 use std::collections::{BTreeMap, HashSet};
 use std::fs::File;
 use std::io::{BufWriter, Write};
